@@ -74,7 +74,7 @@ func (d *c14Data) mkCallback(w *World, r *c14Reg) func(api.ResponseMessage) {
 
 func init() {
 	Register(&Scenario{
-		Prop: "C14", Name: "response-callbacks",
+		Prop: "C14", Name: "response-callbacks", Weight: 3,
 		NonTrivial: []string{"c14-callback-fired-once"},
 		Build: func(w *World) {
 			pr := BuildProto(w, ProtoOpt{Peers: 1 + w.T.Choose(2, "peers"), MinServers: 1, ClientFeats: true})
